@@ -155,11 +155,11 @@ Section Batch.
   Qed.
 
   (* send_batch: the relation is kept, the specification finds nothing wrong with the notes *)
-  Lemma batch_R m sp f :
-    R0 c m sp ->
+  Lemma batch_Rt t0 m sp f :
+    R0t c t0 m sp ->
     exists sps',
       fold_left (apply_note (now m)) (snd (send_batch c m)) (sp_subs sp, f) = (sps', f) /\
-      R c (fst (send_batch c m)) (sp_set_subs sp sps') /\
+      Rt c t0 (fst (send_batch c m)) (sp_set_subs sp sps') /\
       (forall sid, (count_sid sid (snd (send_batch c m)) <= 1)%nat) /\
       now (fst (send_batch c m)) = now m /\ nsid (fst (send_batch c m)) = nsid m /\
       vars (fst (send_batch c m)) = vars m /\ timers (fst (send_batch c m)) = timers m.
@@ -170,11 +170,21 @@ Section Batch.
     unfold send_batch. cbn [fst snd].
     eexists. split; [apply notes_fold; auto|].
     split.
-    - unfold R. cbn [now nsid vars timers subs set_outs set_subs sp_set_subs sp_now sp_nsid sp_vars sp_subs].
+    - unfold Rt. cbn [now nsid vars timers subs set_outs set_subs sp_set_subs sp_now sp_nsid sp_vars sp_subs].
       split; [exact Hnow|]. split; [exact Hns|]. split; [exact H0|]. split; [exact (conj L1 Hv')|].
       split; [exact Htm|exact Hs'].
     - split; [intros sid; now apply count_le1|]. cbn. auto.
   Qed.
+
+  Lemma batch_R m sp f :
+    R0 c m sp ->
+    exists sps',
+      fold_left (apply_note (now m)) (snd (send_batch c m)) (sp_subs sp, f) = (sps', f) /\
+      R c (fst (send_batch c m)) (sp_set_subs sp sps') /\
+      (forall sid, (count_sid sid (snd (send_batch c m)) <= 1)%nat) /\
+      now (fst (send_batch c m)) = now m /\ nsid (fst (send_batch c m)) = nsid m /\
+      vars (fst (send_batch c m)) = vars m /\ timers (fst (send_batch c m)) = timers m.
+  Proof. intros H. exact (batch_Rt (now m) m sp f H). Qed.
 
   Lemma send_batches_S k m :
     send_batches (S k) c m =
